@@ -205,7 +205,26 @@ def f_to_decimal(r: random.Random):
     return f"{fn}({args})", rounded, tag
 
 
+def f_dateadd_subsecond(r: random.Random):
+    part, spell = r.choice([("millisecond", "millisecond"), ("millisecond", "ms"), ("microsecond", "microsecond"), ("microsecond", "us"),
+                            ("millisecond", "MILLISECOND"), ("microsecond", "'microsecond'")])
+    n = r.choice([0, 1, -1, 1500, 999, 1000, 86400000, r.randint(-5000000, 5000000)])
+    is_date = r.random() < 0.6
+    base: Any = rand_date(r) if is_date else rand_ts(r)
+    if is_date:
+        d = q(base.isoformat())
+        lit = r.choice([f"{d}::DATE", f"CAST({d} AS DATE)", f"TO_DATE({d})"])
+        b2 = datetime.datetime(base.year, base.month, base.day)
+    else:
+        lit, b2 = f"{q(base.isoformat(sep=' '))}::TIMESTAMP_NTZ", base
+    exp = b2 + datetime.timedelta(**{part + "s": n})
+    fn = r.choice(["DATEADD", "DATEADD", "TIMESTAMPADD", "TIMEADD"])
+    return f"{fn}({spell}, {n}, {lit})", exp, f"{part}/{'date' if is_date else 'timestamp'}"
+
+
 def f_dateadd(r: random.Random):
+    if r.random() < 0.15:
+        return f_dateadd_subsecond(r)
     part = r.choice(["year", "quarter", "month", "week", "day", "hour", "minute", "second"])
     n = r.choice([0, 1, -1, 2, 3, 11, 12, -13, 30, 365, r.randint(-500, 500)])
     is_date = r.random() < 0.5
@@ -285,6 +304,15 @@ def f_sha2(r: random.Random):
 
 def f_equal_null(r: random.Random):
     vals = [("1", 1), ("2", 2), ("NULL", None), ("'a'", "a"), ("'b'", "b"), ("NULL::VARCHAR", None)]
+    if r.random() < 0.4:
+        # equal (or unequal) by value across numeric / temporal types and scales: compared as values, not as their text
+        mixed = [("1", "1.0", True), ("1.50", "1.5", True), ("2", "2::DOUBLE", True), ("TO_DECIMAL('3.1', 10, 2)", "TO_NUMBER('3.10', 10, 1)", True),
+                 ("'2020-01-01'::DATE", "'2020-01-01 00:00:00'::TIMESTAMP_NTZ", True), ("-0.0::DOUBLE", "0.0::DOUBLE", True),
+                 ("10", "10.00::NUMBER(10,2)", True), ("1", "2.0", False), ("1.5", "1.05", False), ("NULL", "1.0", False), ("0.5::DOUBLE", "0.50", True)]
+        la, lb, exp = r.choice(mixed)
+        if r.random() < 0.5:
+            la, lb = lb, la
+        return f"EQUAL_NULL({la}, {lb})", exp, "mixed-types"
     (la, a), (lb, b) = r.choice(vals), r.choice(vals)
     if a is not None and b is not None and type(a) is not type(b):
         lb, b = la, a
